@@ -83,6 +83,13 @@ func c02Variants(reduced bool) []opVariant {
 			}
 			return &gen.Project{Cols: []gen.Column{{Name: colIdent(c2)}, {Name: colIdent(c1)}}}, []string{c2, c1}
 		}},
+		{"project-identity", func(sch []string, i int) (gen.Op, []string) {
+			c1, c2 := c12(sch)
+			if c1 == c2 {
+				return &gen.Project{Cols: []gen.Column{{Name: colIdent(c1)}}}, []string{c1}
+			}
+			return &gen.Project{Cols: []gen.Column{{Name: colIdent(c1)}, {Name: colIdent(c2)}}}, []string{c1, c2}
+		}},
 		{"project-rename", func(sch []string, i int) (gen.Op, []string) {
 			c1, _ := c12(sch)
 			n := fmt.Sprintf("n%d", i)
@@ -213,7 +220,7 @@ func c02Variants(reduced bool) []opVariant {
 		return out
 	}
 	keepNames := map[string]bool{"where-gt": true, "project-rename": true, "project-swap-names": true, "extend": true, "summarize-count-by": true, "summarize-max": true,
-		"sort": true, "sort-asc": true, "take-1": true, "limit-2": true, "take-10": true, "top-1": true, "count": true, "as": true, "render": true}
+		"sort": true, "sort-asc": true, "take-1": true, "limit-2": true, "take-10": true, "project-identity": true, "top-1": true, "count": true, "as": true, "render": true}
 	var out []opVariant
 	for _, v := range all {
 		if keepNames[v.name] {
@@ -416,7 +423,7 @@ func c02DBs(maxRows int) []rel.DB {
 }
 
 func c02Main(r *run.Runner) {
-	r.Rule = "explicit-state exploration of the subquery splitter: every operator sequence of length <= d over 33 schema-aware operator variants (all eleven operators, from base table T(a,b)) is compiled by the real compiler; the emitted SQL is read by the independent reader and executed by a list-semantics SQL evaluator on EVERY database instance (all row lists of <= m rows over a in {NULL,1,2}, b in {1,2}); " +
+	r.Rule = "explicit-state exploration of the subquery splitter: every operator sequence of length <= d over 34 schema-aware operator variants (all eleven operators, from base table T(a,b)) is compiled by the real compiler; the emitted SQL is read by the independent reader and executed by a list-semantics SQL evaluator on EVERY database instance (all row lists of <= m rows over a in {NULL,1,2}, b in {1,2}); " +
 		"the result must equal what a left-to-right interpreter of the source pipeline returns: same column names in order, same rows, same order wherever a sort determines it. states = operator sequences explored (each is a distinct state of the splitter: last operator kind, pending sort/take, names in scope), transitions = operator applications, traces validated = (sequence, database) executions compared"
 	r.Assume = []string{"list semantics: FROM/CTE order is preserved, ORDER BY is stable, GROUP BY yields groups in first-appearance order", "aggregates and scalar primitives are those of package sem"}
 	d, m := 3, 3
@@ -452,12 +459,18 @@ func c02Main(r *run.Runner) {
 	canonicalOnly = true
 	deep := c02Variants(true)
 	canonicalOnly = false
+	var deepDBs []rel.DB
+	for i, db := range small {
+		if i%2 == 0 || r.Thorough() {
+			deepDBs = append(deepDBs, db)
+		}
+	}
 	n3 := forEachSequence(r, "operator-sequences-deep", d+2, deep, func(w *run.Worker, p *gen.Pipeline, src string) {
 		if len(p.Ops) >= d+1 {
-			relCheck(w, get(w), "C02", p, src, small, nil)
+			relCheck(w, get(w), "C02", p, src, deepDBs, nil)
 		}
 	})
-	r.Extra["deep"] = map[string]any{"depth": d + 2, "variants": len(deep), "sequences": n3}
+	r.Extra["deep"] = map[string]any{"depth": d + 2, "variants": len(deep), "sequences": n3, "databases": len(deepDBs)}
 	r.Extra["bounds"] = map[string]any{"depth": d, "variants": len(c02Variants(false)), "sequences": n, "databases": len(dbs), "max_rows": m,
 		"reduced_depth": d + 1, "reduced_variants": len(c02Variants(true)), "reduced_sequences": n2}
 	r.Sample("T | take 1 | sort by a | where a > 1")
